@@ -149,23 +149,26 @@ def nextJunk {β} (s : St β) : W × St β :=
 /-- host pointers as they appear in registers -/
 def ptrVal (tok : Nat) : W := BitVec.ofNat 64 (0xf00d000000000000 + tok)
 
+/-- the five bus helpers by pointer: result (low 16 bits of rax) and the bus afterwards -/
+def helperCall {β} (B : Interp.BusOps β) (bus : β) (f addr val : Nat) : Except Fault (Nat × β) :=
+  let lift {α} (x : Except Bus.Panic α) : Except Fault α := match x with | .ok v => .ok v | .error e => .error (.bus e)
+  if f == (ptrVal 513).toNat then do let v ← lift (B.read bus addr); pure (v, bus)
+  else if f == (ptrVal 514).toNat then do let b ← lift (B.write bus addr (val % 256)); pure (0, b)
+  else if f == (ptrVal 515).toNat then do
+    let lo ← lift (B.read bus addr); let hi ← lift (B.read bus ((addr + 1) % 65536)); pure (hi * 256 + lo, bus)
+  else if f == (ptrVal 516).toNat then do
+    let b ← lift (B.write bus addr (val % 256)); let b ← lift (B.write b ((addr + 1) % 65536) (val / 256 % 256)); pure (0, b)
+  else if f == (ptrVal 517).toNat then do
+    let b ← lift (B.write bus ((addr + 1) % 65536) (val / 256 % 256)); let b ← lift (B.write b addr (val % 256)); pure (0, b)
+  else throw (.bad "call through an unknown pointer")
+
 /-- `call rax`: the bus helper selected by the pointer in rax, System V argument registers -/
 def callBus {β} (B : Interp.BusOps β) (s : St β) : Except Fault (St β) := do
   let f := (get s 0).toNat
   if get s 7 != ptrVal 512 then throw (.bad "call with rdi != memory base")
   let addr := (get s 6).toNat % 65536
   let val := (get s 2).toNat
-  let lift {α} (x : Except Bus.Panic α) : Except Fault α := match x with | .ok v => .ok v | .error e => .error (.bus e)
-  let (ret, bus) ← (
-    if f == (ptrVal 513).toNat then do let v ← lift (B.read s.bus addr); pure (v, s.bus)
-    else if f == (ptrVal 514).toNat then do let b ← lift (B.write s.bus addr (val % 256)); pure (0, b)
-    else if f == (ptrVal 515).toNat then do
-      let lo ← lift (B.read s.bus addr); let hi ← lift (B.read s.bus ((addr + 1) % 65536)); pure (hi * 256 + lo, s.bus)
-    else if f == (ptrVal 516).toNat then do
-      let b ← lift (B.write s.bus addr (val % 256)); let b ← lift (B.write b ((addr + 1) % 65536) (val / 256 % 256)); pure (0, b)
-    else if f == (ptrVal 517).toNat then do
-      let b ← lift (B.write s.bus ((addr + 1) % 65536) (val / 256 % 256)); let b ← lift (B.write b addr (val % 256)); pure (0, b)
-    else throw (.bad "call through an unknown pointer") : Except Fault (Nat × β))
+  let (ret, bus) ← helperCall B s.bus f addr val
   -- clobber every caller-saved register and the flags; the result sits in the low bits of rax
   let s := { s with bus := bus }
   let mut s := s
